@@ -1,9 +1,9 @@
 CONSTANTS
   NF = 3  D = 2  CapSmall = 1  CapLarge = 1
-  Kinds <- KAll
-  Sizes <- SAll
-  Opts <- OPlain
+  Kinds <- KAnswer
+  Sizes <- SSmall
+  Opts <- OAll
   FlushOnWait = TRUE  FlushBeforeDirect = TRUE  ResetSlot = TRUE
-SPECIFICATION Spec
+SPECIFICATION ScriptSpec
 INVARIANTS TypeOK WholeInOrderOnePerQuery ReplyOptIsOwn SlotIsZeroBetweenRequests NothingHeldWhileBlocked ClassFits TokenConservation ClosedIsClean
 CHECK_DEADLOCK FALSE
